@@ -1,5 +1,5 @@
 import json, os
-import codec, httpdrv, rootmode, anymode
+import codec, httpdrv, rootmode, roothttp, anymode
 from codecmode import MODELLED
 from generic import run_check
 from lib import sh, env_go, Broken
@@ -36,6 +36,8 @@ def main(tier, seed, replay):
         anymode.any_post(state)(run, rep, out)
         # ROOT module generation: the same hostile streams against the root readers / root bindings
         rootmode.run_root(run, "c04", tier, seed)
+        # ... and the HTTP level against the root runtime and the bindings of the root generator
+        roothttp.run_root(run, "c04http", tier, seed)
 
     codec.write_fam_env()
     return run_check(
